@@ -113,38 +113,45 @@ def h_characterisation_purity(h, name, branch):
         h.claim(f'{cid}/reference-isotherm-unchanged', unchanged(h, before_ref, full_snapshot(ref)))
 
 
-def h_no_hidden_state(h, name):
+def h_no_hidden_state(h, name, variant='adsorbate'):
     """An analysis does not depend on analyses run earlier in the process (module-level or functools caches keyed by adsorbate
     name / temperature / rounded data).  Three runs of the same entry point in one process:
         1. isotherm B with its adsorbate under a DIFFERENT name (the 'fresh' answer for B; same property values, same backend),
         2. isotherm A (adsorbate 'fakegas', other property values, other data, same temperature),
         3. isotherm B with the adsorbate named 'fakegas' like A's.
-    The kernel arguments of run 3 must equal those of run 1."""
+    The kernel arguments of run 3 must equal those of run 1.  variant 'temperature': B is the SAME adsorbate (same property
+    values) measured at another temperature."""
     from .c15 import leaves_equal
     T = h.real('T', pos=True)
     units = dict(S0, pressure_mode='relative', pressure_unit=None)
 
+    T2 = h.real('T_other', pos=True)
+    if variant == 'temperature':
+        h.assume(T2 != T)
+
     def world(tag, adsname, props_tag):
         ads = stubs.fake_adsorbate(h, adsname, props_tag)
+        temp = T2 if (variant == 'temperature' and tag == 'b') else T
         if h.sym:
-            ads._state.positivity(T)
+            ads._state.positivity(temp)
         ads.properties.update(wrappers.ADS_PROPS)
         ads.properties['cross_sectional_area'] = h.real(f'cross_section_{props_tag}', pos=True)
         ps = isofix.increasing(h, [f'{tag}p{i}' for i in range(3)])
         h.assume(ps[-1] < 1)
         ns = isofix.increasing(h, [f'{tag}n{i}' for i in range(3)])
         mat = isofix.sym_material(h, name=f'mat{tag}')
-        iso = isofix.point_iso(h, ps, ns, units=units, ads=ads, mat=mat, T=T, branch=[0, 0, 0],
+        iso = isofix.point_iso(h, ps, ns, units=units, ads=ads, mat=mat, T=temp, branch=[0, 0, 0],
                                extra={'enthalpy': isofix.column(h, [h.real(f'{tag}e{i}') for i in range(3)])})
         return iso
     extra = {'branch': 'ads'}
     if name == 'alpha_s':
         return
     with isofix.interp_patch(h):
-        fresh_res, fresh_calls = wrappers.run(name, world('b', 'othergas', 'g'), extra)
+        bprops = 'g' if variant == 'adsorbate' else 'f'
+        fresh_res, fresh_calls = wrappers.run(name, world('b', 'othergas', bprops), extra)
         a_res, a_calls = wrappers.run(name, world('a', 'fakegas', 'f'), extra)
-        res, calls = wrappers.run(name, world('b', 'fakegas', 'g'), extra)
-    cid = f'C04/no-hidden-state/{name}'
+        res, calls = wrappers.run(name, world('b', 'fakegas', bprops), extra)
+    cid = f'C04/no-hidden-state/{name}' + ('' if variant == 'adsorbate' else f'/{variant}')
     if isinstance(fresh_res, Exception) or isinstance(res, Exception):
         h.claim(f'{cid}/second-analysis-behaves-like-the-fresh-one', type(fresh_res) is type(res), info=f'{fresh_res!r} vs {res!r}'[:200])
         return
@@ -353,6 +360,7 @@ def obligations(tier):
     for name in wrappers.entries():
         if name != 'alpha_s':
             obs.append(Obligation(f'C04/no-hidden-state/{name}', h_no_hidden_state, (name,), bounds='k=3; three runs in one process', **kw))
+            obs.append(Obligation(f'C04/no-hidden-state/{name}/temperature', h_no_hidden_state, (name, 'temperature'), bounds='k=3; three runs in one process; same adsorbate at two temperatures', **kw))
     for kind in ('model', 'model-concrete', 'point'):
         obs.append(Obligation(f'C04/purity/to_json/{kind}', h_export_purity, (kind,), bounds='k=3', **kw))
     for w in ('isosteric_enthalpy', 'iast_point', 'whittaker'):
